@@ -5,6 +5,9 @@ import json, subprocess
 MC = 'explicit-state model checking of the real code: breadth-first search over environment-event histories of a closed world (real Session manager + real PeerHandler::run() tasks over in-memory pipes, paused tokio clock, real piece files), every successor computed by replaying the history against fresh real objects, states deduplicated on a canonical snapshot'
 ENUM = "bounded-exhaustive enumeration of inputs against a reference model (explicit enumeration, no sampling)"
 CHECKS = {
+ "C02": ("model_checking", "explicit-state model checking of the real code in the full-session world: the real Session event loop (select!), tracker task, connection tasks and extractor run as tokio tasks under the paused clock over HTTP/connect seams; BFS over honest-peer event orders with replay-from-scratch successors, plus a fair-continuation liveness obligation from every unexpanded state", "E-SYS full-session world",
+         "For a family of geometries (single-block and 16387-byte multi-block pieces, short/exact last piece, single file, multi-file with a boundary inside a piece and a zero-length file, 11 pieces = no end game) and piece distributions over 1..3 honest peers (seeder, complementary sets, redundant peers that leave and are offered again, Have-only announcers): BFS over all orders of handshake/bitfield/have/unchoke/answer(oldest|newest|split in two reads)/choke/interest/disconnect/tick events with every chooser tie-break; in every state no task panicked and the session is alive; every state that is not expanded must reach all pieces owned + extractor ran + every output file byte-identical + event loop still iterating under the fair continuation (900 s virtual horizon).",
+         "fairness assumptions stated in the evidence; only outgoing connections exist in this world", "DESIGN.md C02"),
 
  "C01": ("model_checking", MC, "E-SYS pumped world",
          "BFS over all histories (depth 10 / 12) of 1..2 adversarial peers (correct, bit-flipped, mis-indexed, shifted, short/long, duplicated, unrequested blocks; choke; close; reset) plus an observer that requests data, at most 3 (quick) / 4 (thorough) dishonest events per history, every tie-break of the piece chooser enumerated. In every reachable state: every *.piece file hashes to its name and to a piece of the torrent, Have implies a stored verified file, every Have/Bitfield/Piece frame written refers to stored verified data and carries the right bytes, output files only from complete verified data, no live task sits on a fully assembled piece, every Reserved status is backed by a live unchoking peer that is fetching it.",
@@ -66,7 +69,6 @@ CHECKS = {
          "request observed after reqwest built it (seam), not on a socket", "DESIGN.md C18"),
 }
 PENDING = {
- "C02": "check under construction (E-SYS full-session world); not claimed until it runs soundly",
 }
 
 def hook_commits():
@@ -99,7 +101,7 @@ def main():
             "add_only": True,
         },
         "engines": [
-            {"name": "E-SYS/E-MGR/E-SEG", "path": "/verif/harness/src (world.rs, fullworld.rs, explore.rs, c01 c06 c08 c09 c10 c11 c12 c13 c14 c19 c20)", "serves_properties": ["C01","C06","C08","C09","C10","C11","C12","C13","C14","C19","C20"], "kind_free_text": "explicit-state search where every transition runs the real handler/manager code on one pending event (paused tokio clock, in-memory pipes, real files)"},
+            {"name": "E-SYS/E-MGR/E-SEG", "path": "/verif/harness/src (world.rs, fullworld.rs, explore.rs, c01 c06 c08 c09 c10 c11 c12 c13 c14 c19 c20)", "serves_properties": ["C01","C02","C06","C08","C09","C10","C11","C12","C13","C14","C19","C20"], "kind_free_text": "explicit-state search where every transition runs the real handler/manager code on one pending event (paused tokio clock, in-memory pipes, real files)"},
             {"name": "E-ENUM", "path": "/verif/harness/src (strings.rs, refb.rs, refwire.rs, fixture.rs, c03 c04 c05 c07 c15 c16 c17 c18 c19)", "serves_properties": sorted(CHECKS), "kind_free_text": "bounded-exhaustive input enumeration against reference models written in the harness"},
         ],
         "checks": checks,
